@@ -1,6 +1,7 @@
 import Driver.Rns
 import Driver.Notif
 import Driver.Mint
+import Driver.Filetree
 open Lean (Json)
 
 /-- Line protocol: one JSON step record per line on stdin; one verdict line per record on stdout:
@@ -17,6 +18,8 @@ def checkLine (line : String) : String :=
       | "rns" => Driver.Rns.check j
       | "notif" => Driver.Notif.check j
       | "mint" => Driver.Mint.check j
+      | "filetree" => Driver.Filetree.check j
+      | "path" => Driver.Filetree.checkPath j
       | "panic" => .ok (some s!"panic {(j.getObjValAs? String "where").toOption.getD ""}: {(j.getObjValAs? String "panic").toOption.getD ""}")
       | m => .error s!"unknown mod {m}"
     match res with
